@@ -138,6 +138,8 @@ func (in *Interp) newSymNode(root, path string, depth int, widths map[string]int
 	in.assume(tt.Implies(prim, tt.Eq(n.nkids, c64(0))))
 	// constructed with no children has empty content
 	in.assume(tt.Implies(tt.And(tt.Not(prim), tt.Eq(n.nkids, c64(0))), tt.Eq(n.data.LenTerm(tt), c64(0))))
+	// every child contributes at least an identifier and a length octet to its parent's content
+	in.assume(tt.BVCmp("bvuge", n.data.LenTerm(tt), tt.BVOp("bvshl", n.nkids, c64(1))))
 	if path != "" {
 		// a child that looks like an end-of-contents marker is rejected by the reader
 		in.assume(tt.Not(tt.And(univPrimOf(tt, n), tt.Eq(n.tag, c64(0)), tt.Eq(n.data.LenTerm(tt), c64(0)))))
